@@ -120,6 +120,10 @@ type RaftNode struct {
 
 	log log.Logger
 
+	// applyMu makes an insertion atomic for readers: it is held from the moment
+	// the balloon computes the insertion until the store has persisted it.
+	applyMu sync.RWMutex
+
 	sync.Mutex
 	closed bool
 	done   chan struct{}
